@@ -42,7 +42,13 @@ var HostFuncs = map[string]*Func{
 	"gvar":   {Host: "gvar", HP: []string{"any", "any"}, HV: true},
 	"gtyped": {Host: "gtyped", HP: []string{"int64", "string", "int64"}},
 	"gtvar":  {Host: "gtvar", HP: []string{"string", "int64"}, HV: true},
+	// gderef(p, b) dereferences the pointer p and returns [*p, b]; the model treats &e as e
+	"gderef": {Host: "gderef", HP: []string{"any", "any"}},
 }
+
+// HostArr is the model of harr, a Go array value ([3]int64{5, 6, 7}) bound by the host: it can be
+// indexed; slicing it fails inside the interpreter (a Go array held by value is not addressable).
+type HostArr struct{ E []interface{} }
 
 // hostConv converts v for a Go parameter of type typ; false = no conversion exists.
 func hostConv(v interface{}, typ string) (interface{}, bool) {
@@ -235,6 +241,10 @@ func Run(stmts []*N, cfg Cfg, budget int) (out *Outcome) {
 	for name, f := range HostFuncs {
 		top.define(name, f)
 	}
+	// host variables: hnil / hnilm are nil Go maps (no entries), harr a Go array
+	top.define("hnil", &Map{})
+	top.define("hnilm", &Map{})
+	top.define("harr", &HostArr{E: []interface{}{int64(5), int64(6), int64(7)}})
 	out.Top = top
 	defer func() {
 		if r := recover(); r != nil {
@@ -324,6 +334,29 @@ func (m *Model) stmt1(s *N, sc *Scope) ctl {
 		for i := 0; i < len(vs) && i < len(s.Ps); i++ {
 			m.assign(sc, s.Ps[i], vs[i])
 		}
+		return ok0
+	case "letmap":
+		// `v, ok = m[k]`: v is the entry (nil when absent), ok whether a non-nil entry was found;
+		// both are ordinary assignments
+		v, c := m.eval(&N{K: "idx", Ns: s.Ns}, sc)
+		if c.s != sNone {
+			return c
+		}
+		m.feat("map_lookup_two_values")
+		m.assign(sc, s.Ps[0], v)
+		m.assign(sc, s.Ps[1], v != nil)
+		return ok0
+	case "letchan":
+		// receive from an open buffered channel holding one value: ordinary assignments
+		v, c := m.eval(s.Ns[0], sc)
+		if c.s != sNone {
+			return c
+		}
+		m.feat("chan_receive_assignment")
+		if len(s.Ps) > 1 {
+			m.assign(sc, s.Ps[1], true)
+		}
+		m.assign(sc, s.Ps[0], v)
 		return ok0
 	case "var":
 		vs := make([]interface{}, len(s.Ns))
@@ -1083,10 +1116,25 @@ func (m *Model) eval(e *N, sc *Scope) (interface{}, ctl) {
 			mp.set(ck, cv)
 		}
 		return mp, ok0
+	case "addr":
+		// &e: evaluates e once; the pointer itself is transparent to the probes (gderef)
+		m.feat("address_of")
+		return m.eval(e.Ns[0], sc)
 	case "slice":
 		a, c := m.eval(e.Ns[0], sc)
 		if c.s != sNone {
 			return nil, c
+		}
+		if _, isArr := a.(*HostArr); isArr {
+			// fails before any bound operand is evaluated? Not specified: the generators only use
+			// constant bounds here
+			for _, b := range e.Ns[1:] {
+				if b.K != "none" && b.K != "int" {
+					m.unspec("slice of a host array with non-constant bounds")
+				}
+			}
+			m.feat("slice_of_host_array_fails")
+			return nil, errc("slice of unaddressable array", false)
 		}
 		l, ok := a.(*List)
 		if !ok {
@@ -1233,6 +1281,12 @@ func (m *Model) eval(e *N, sc *Scope) (interface{}, ctl) {
 		case *Map:
 			v, _ := t.get(i)
 			return v, ok0
+		case *HostArr:
+			ix, ok := i.(int64)
+			if !ok || ix < 0 || ix >= int64(len(t.E)) {
+				m.unspec("host array index %v", i)
+			}
+			return t.E[ix], ok0
 		}
 		m.unspec("index of %T", a)
 	case "mem":
